@@ -2522,7 +2522,8 @@ class SourceFinder(object):
             # s.a is in arcsec but we assume regroup_eps is in arcmin
             regroup_eps = 4*np.mean([s.a/60 for s in sources])
         # convert regroup_eps into a value appropriate for a cartesian measure
-        regroup_eps = np.sin(np.radians(regroup_eps/60))
+        # (dbscan measures the chord between unit vectors)
+        regroup_eps = 2*np.sin(np.radians(regroup_eps/60)/2)
         input_sources = sources
         # redo the grouping if required
         if doregroup:
